@@ -240,8 +240,9 @@ func richHonest(r *mrand.Rand) *world.World {
 		ql = append(ql, world.IsvLevel{Isv: 0, Status: pickStatus(r)})
 	}
 	w.Qe.Levels = ql
-	w.Tcb.TimeStyle, w.Qe.TimeStyle = r.Intn(6), r.Intn(6) // any legal RFC 3339 spelling of the same instants
-	w.HdrStyle = r.Intn(3)                                 // any usual URL-escaping of the issuer chains
+	w.Tcb.TimeStyle, w.Qe.TimeStyle = r.Intn(6), r.Intn(6)     // any legal RFC 3339 spelling of the same instants
+	w.HdrStyle = r.Intn(3)                                     // any usual URL-escaping of the issuer chains
+	w.Tcb.Future, w.Qe.Future = r.Intn(4) == 0, r.Intn(4) == 0 // documents of a later, additive schema revision
 	w.Resign()
 
 	// five different instants anywhere inside every window (documents: issue-1d .. +30d; certificates: far)
